@@ -15,7 +15,7 @@ ASSUMPTIONS = [
     "runs whose values exceed 1e100 (float overflow through explosive feedback functions) are discarded and counted",
     "framework built through the validated-DataFrame fast path (ProjectFramework._validate), databook through ProjectData.new",
 ]
-BUDGET = {"quick": 4000, "thorough": 150000}
+BUDGET = {"quick": 4000, "thorough": 32000}  # thorough = 8x quick: a depth that was run to completion, quiet, at seed 1 (deterministic given the seed)
 TIME_CAP = {"quick": 75, "thorough": 1500}
 PROFILE = {"p_deriv": 0.1, "p_agg_transition": 0.1, "p_programs": 0.3, "p_second_type": 0.15, "p_indirect_junction": 0.35}
 
